@@ -24,17 +24,17 @@ const (
 
 func init() {
 	register(&property{ID: "C01", Run: runC01, Meta: propMeta{
-		Explanation: "Static symmetry clauses of the codecs: (1) the encoder and decoder dispatchers (binary and map form) handle the same set of reflect kinds, and the struct-field loops test the same field predicates and use the matching optional-marker primitive; (2) the length-prefix writer/reader tables of serializer and stream cover every declared prefix constant with the same byte widths (1,2,4,8), numSize/ReadNum agree on widths; (3) array temp copies: the value returned by sliceFromArray is never handed to a decoder that writes into it, and wherever its bytes are filled the array is written back on every success path; arrays of objects are decoded through decodeArrayViaSlice; (4) the stream read helpers never issue a bare Reader.Read (counted reads go through io.ReadFull / io.CopyN / binary.Read), so any chunking reader works; (5) determinism: encodeMap applies ensureOrdering before handing entries to the serializer, ensureOrdering sets both ordering bits, and WriteSliceOfByteSlices sorts before its write loop whenever both bits are set; (6) errors of SerializableOrderedMap and the stream helpers are checked.",
+		Explanation: "Static symmetry clauses of the codecs: (1) the encoder and decoder dispatchers (binary and map form) handle the same set of reflect kinds, and the struct-field loops test the same field predicates and use the matching optional-marker primitive; (2) the length-prefix writer/reader tables of serializer and stream cover every declared prefix constant with the same byte widths (1,2,4,8), numSize/ReadNum agree on widths; (3) array temp copies: the value returned by sliceFromArray is never handed to a decoder that writes into it, and wherever its bytes are filled the array is written back on every success path; arrays of objects are decoded through decodeArrayViaSlice; (4) the stream read helpers never issue a bare Reader.Read (counted reads go through io.ReadFull / io.CopyN / binary.Read), so any chunking reader works; (5) determinism: encodeMap applies ensureOrdering before handing entries to the serializer, ensureOrdering sets both ordering bits, and WriteSliceOfByteSlices sorts before its write loop whenever both bits are set; (6) errors of SerializableOrderedMap and the stream helpers are checked. Also: the decoder never writes into the bytes it decodes (no store through the Deserializer source or a decode function's []byte parameter or an alias of them, and they are not handed to a function that writes its argument); the JSON field key of a byte array behind a pointer is taken from the same settings source by encoder and decoder.",
 		NotDecided:  "equality of decoded and original values (numeric conversions, big.Int range, time saturation, reflect semantics), custom Serializable implementations, expressiveness of the JSON form",
 		Assumptions: []string{"reflect, encoding/binary, io.ReadFull/CopyN, sort behave as documented"},
 	}})
 	register(&property{ID: "C02", Run: runC02, Meta: propMeta{
-		Explanation: "Static totality/boundedness clauses of the decoders: (1) every slice or index of the Deserializer's source beyond the offset is dominated by the failing-return edge of a remaining-length comparison for the same size; (2) every allocation whose size is not a constant (make) in the Deserializer is dominated by such a guard for that size, and the stream read helpers contain no size-driven make at all and reject sizes that do not fit an int; (3) no unchecked type assertion to a JSON value type and no reflect use of a raw JSON value without a dominating type test in serix map decoding; (4) every loop bounded by a decoded length contains a fallible input-consuming call whose failure leaves the loop; (5) explicit panics in the decode-reachable files are exactly the tabled programmer-error panics; switches over the length-prefix type cover every declared constant.",
+		Explanation: "Static totality/boundedness clauses of the decoders: (1) every slice or index of the Deserializer's source beyond the offset is dominated by the failing-return edge of a remaining-length comparison for the same size; (2) every allocation whose size is not a constant (make) in the Deserializer is dominated by such a guard for that size, and the stream read helpers contain no size-driven make at all and reject sizes that do not fit an int; (3) no unchecked type assertion to a JSON value type and no reflect use of a raw JSON value without a dominating type test in serix map decoding; (4) every loop bounded by a decoded length contains a fallible input-consuming call whose failure leaves the loop; (5) explicit panics in the decode-reachable files are exactly the tabled programmer-error panics; switches over the length-prefix type cover every declared constant. Also: every slice or index expression on an input-derived []byte outside the Deserializer (serix decode functions, element validators) is length-guarded on every path or bounded by the count returned by a decoder that was handed the same slice.",
 		NotDecided:  "panics inside reflect for shapes not covered, allocation inside hexutil/encoding/json, zero-size elements in prefix-bounded loops (type dependent)",
 		Assumptions: []string{"encoding/json yields only string/float64/bool/nil/map[string]any/[]any"},
 	}})
 	register(&property{ID: "C03", Run: runC03, Meta: propMeta{
-		Explanation: "Static wire-format clauses: (1) no big-endian or native-endian reference in serializer, serix, stream, typeutils; every binary.Write/Read there passes LittleEndian (the matcher is validated on every run against a package of this repository that does use BigEndian); (2) width tables: length prefixes 1/2/4/8 bytes for the four declared constants on writer and reader, number widths equal the types' sizes and ReadNum uses LittleEndian.UintN of the same width, payload/optional marker is uint32; (3) strict booleans: ReadBool accepts exactly 0 and 1 (error default), WriteBool writes only 0/1; (4) canonical decoding: the reader applies the same validators as the writer (CheckBounds + ElementValidationFunc under the validation bit), decodeMap forces lexical ordering and rejects duplicate keys before inserting, the optional-field length mismatch returns an error; (5) the lexical validators and the sort use bytes.Compare with the tabled relations.",
+		Explanation: "Static wire-format clauses: (1) no big-endian or native-endian reference in serializer, serix, stream, typeutils; every binary.Write/Read there passes LittleEndian (the matcher is validated on every run against a package of this repository that does use BigEndian); (2) width tables: length prefixes 1/2/4/8 bytes for the four declared constants on writer and reader, number widths equal the types' sizes and ReadNum uses LittleEndian.UintN of the same width, payload/optional marker is uint32; (3) strict booleans: ReadBool accepts exactly 0 and 1 (error default), WriteBool writes only 0/1; (4) canonical decoding: the reader applies the same validators as the writer (CheckBounds + ElementValidationFunc under the validation bit), decodeMap forces lexical ordering and rejects duplicate keys before inserting, the optional-field length mismatch returns an error; (5) the lexical validators and the sort use bytes.Compare with the tabled relations. Also: a timestamp is saturated only when its seconds exceed MaxNanoTimestampInt64Seconds strictly, on writer and reader; an array is filled only through the edge on which the decoded element count equals the array length.",
 		NotDecided:  "byte-for-byte equality with an independent reference encoder; Decode∘Encode = id on accepted inputs beyond the listed validators",
 		Assumptions: []string{"encoding/binary semantics"},
 	}})
